@@ -152,12 +152,18 @@ def replay(case, scratch):
             elif kind == "signal":
                 pid = t.tmap.get(op[1])
                 if pid:
-                    os.kill(pid, signal.SIGINT if op[2] == "INT" else signal.SIGTERM)
+                    try:
+                        os.kill(pid, signal.SIGINT if op[2] == "INT" else signal.SIGTERM)
+                    except ProcessLookupError:
+                        pass          # a tracker that has swept and left; one that should still be there is missed below
                     time.sleep(0.25)
             elif kind == "killtracker":
                 pid = t.tmap.get(op[1])
                 if pid:
-                    os.kill(pid, signal.SIGKILL)
+                    try:
+                        os.kill(pid, signal.SIGKILL)
+                    except ProcessLookupError:
+                        pass
                     wait_for(lambda: not alive_pid(pid), 5)
             # ---- compare with the specification's state
             # tracker identity per live process
